@@ -64,6 +64,10 @@ pub fn run(ctx: &Ctx) -> Outcome {
             c12::directed("C13", shard - nc, ctx, rep);
         } else {
             let mut rng = ctx.rng("walk", (shard - nc - nd) as u64);
+            if shard - nc - nd < 2 {
+                c12::walk_of_length("C13", &mut rng, 200_000, rep);
+                rep.count("long_walks");
+            }
             for _ in 0..n_walks / walk_shards as u64 {
                 c12::random_walk("C13", &mut rng, walk_len, rep);
             }
@@ -78,6 +82,7 @@ pub fn run(ctx: &Ctx) -> Outcome {
         floor("all 13 protocol states reached by the explorer", report.set_len("protocol_states_reached") + 1 >= 13, report.set_len("protocol_states_reached")),
         floor("explorer states with stored pages", report.get("explorer_states_with_stored_pages") > 0, report.get("explorer_states_with_stored_pages")),
         floor("acks, reports and silent refusals all observed", report.get("replies/ack") > 0 && report.get("replies/report") > 0 && report.get("illegal_requests_met_with_silence") > 0, report.get("illegal_requests_met_with_silence")),
+        floor("two walks of 200 000 messages on one sign object", report.get("long_walks") == 2 && report.maxs.get("longest_walk").copied().unwrap_or(0.0) >= 200_000.0, report.maxs.get("longest_walk").copied().unwrap_or(0.0)),
         floor("random walks stored pages", report.get("walk_steps_with_stored_pages") > 0, report.get("walk_steps_with_stored_pages")),
     ];
     let states = report.get("explorer_states");
